@@ -173,7 +173,8 @@ class ElementLocator : public BaseElementLocator
     {
         const auto element_addresses_begin = ElementTraits::emplace_at_aliased(
             memory_begin + this->element_addresses_[index], fixed_sizes, std::forward<Args>(args)...);
-        this->element_addresses_[index + 1] = element_addresses_begin - memory_begin;
+        this->element_addresses_[index + 1] =
+            ElementTraits::align_for_first_parameter(element_addresses_begin) - memory_begin;
         return element_addresses_begin;
     }
 
